@@ -198,3 +198,24 @@ theorem prOrigSystem_sound (n : Nat) (cs : List Con) (hwf : WF (2*n) cs)
     linarith
 
 end PPLV.Term
+
+namespace PPLV.Term
+open PPLV.Lin
+
+/-- When the rows of `cs_after` have no inhomogeneous term (updates such as
+    `x_2' = x_2 − x_1`, `x_1' ≥ x_1`), the strict inequality of the encoding rests on the guard
+    alone: every solution has `u_2·d_B ≤ −1`, so the multipliers `u_2` of the guard rows are
+    non-zero and the term `u_2·d_B` of `le_out` cannot be dropped. -/
+theorem prSystem_guard_term (n : Nat) (csB csA : List Con) (h0 : (consts csA).all (· == 0) = true)
+    (u : Val) (hs : Sat (prSystem n csB csA) u) :
+    dot (consts csB) (fun i => u (i + csA.length)) ≤ -1 := by
+  unfold prSystem fillPR at hs
+  simp only at hs
+  rw [Sat_append, Sat_singleton, sat_geRow] at hs
+  have hle := hs.2
+  rw [dot_map_neg, dot_append, length_consts, dot_allZero _ h0] at hle
+  have : (((-1 : Int)) : Rat) = -1 := by norm_num
+  rw [this] at hle
+  linarith
+
+end PPLV.Term
